@@ -29,14 +29,18 @@ def chm_mask_rules(chk, prog):
     V = P("v")
     PF = ("call", ("attr", V, "primal_flag"), (), ())
     got = Arms()
-    for conds, ret in r.returns:
-        pos = [t for t, p in conds if p]
-        if ("is", PF, C(False)) in pos:
-            got["F"] = ret
-        elif ("is", PF, C(True)) in pos:
-            got["T"] = ret
-        elif any(is_t(t, "isinst") and t[2] == "Mask" for t in pos):
-            got["traced"] = ret
+    # what build returns for a Mask whose flag is False / True / a traced array - decided on the whole result, wherever the tests sit
+    from ..rules import resolve_all
+    for kind_ in ("F", "T", "traced"):
+        def atom_(c, kind_=kind_):
+            if is_t(c, "isinst") and c[1] == V:
+                return c[2] == "Mask" or "Mask" in c[2].split("|")
+            if is_t(c, "is") and c[1] == PF and c[2] in (C(True), C(False)):
+                return kind_ != "traced" and (kind_ == "T") == c[2][1]
+            if is_t(c, "cmp") and c[1] == "==" and c[2] == PF and c[3] in (C(True), C(False)):
+                return kind_ != "traced" and (kind_ == "T") == c[3][1]
+            return None
+        got[kind_] = resolve_all(r.ret, atom_)
     okc = is_call(got.get("F"), "empty") and got.get("T") == ("ctor", "Choice", (("attr", V, "value"),), ()) and got.get("traced") == ("ctor", "Choice", (V,), ())
     chk.require(okc, "CHM-CONCRETE", "Choice.build", "masked value with a concrete flag", derived={k: show(v) for k, v in got.items()}.__str__(), expected="False -> empty map; True -> Choice(value); traced -> Choice(mask)", where=W(ch, "build"))
     r = ev.eval_fn(ch.methods["filter"], ch.module, ch)
